@@ -43,10 +43,20 @@ type timeline struct {
 	PeriodMS  []int // per writer
 	ViaLogger bool
 	Bursters  int // goroutines that hit every boundary together
+	// AsFile: while the directory is away a regular file sits at its path (the path exists, is not a directory)
+	AsFile bool
+	// Companion: a second rolling appender (other name, interval of this many seconds, 0 = none)
+	// lives in the same directory and is written to every 100 ms: one appender's failed rotation is
+	// that appender's business only
+	Companion int
+	// Aligned: the time-line starts 100 ms after a boundary of the companion's interval, so that the
+	// generated outage covers the next boundary both appenders share and ends before the main
+	// appender's following boundary
+	Aligned bool
 }
 
 func (tl timeline) String() string {
-	return fmt.Sprintf("dur=%dms outages=%v writers=%d periods=%v viaLogger=%v bursters=%d", tl.DurMS, tl.Outages, tl.Writers, tl.PeriodMS, tl.ViaLogger, tl.Bursters)
+	return fmt.Sprintf("dur=%dms outages=%v writers=%d periods=%v viaLogger=%v bursters=%d asFile=%v companion=%ds", tl.DurMS, tl.Outages, tl.Writers, tl.PeriodMS, tl.ViaLogger, tl.Bursters, tl.AsFile, tl.Companion)
 }
 
 func genTimeline(t *rapid.T, label string) timeline {
@@ -63,7 +73,24 @@ func genTimeline(t *rapid.T, label string) timeline {
 		tl.Outages = append(tl.Outages, window{a, b})
 		from = b + 200
 	}
+	tl.AsFile = rapid.IntRange(0, 3).Draw(t, label+"asFile") == 0
+	tl.Companion = rapid.SampledFrom([]int{0, 0, 2, 3}).Draw(t, label+"companion")
+	if tl.Companion > 0 && rapid.Bool().Draw(t, label+"aligned") {
+		align(t, label, &tl)
+	}
 	return tl
+}
+
+// align turns tl into a one-writer time-line with a companion appender whose shared boundary
+// falls into the outage (see timeline.Aligned).
+func align(t *rapid.T, label string, tl *timeline) {
+	if tl.Companion == 0 {
+		tl.Companion = rapid.SampledFrom([]int{2, 3}).Draw(t, label+"companionA")
+	}
+	c := tl.Companion * 1000
+	tl.Aligned, tl.Writers, tl.PeriodMS, tl.Bursters = true, 1, []int{rapid.SampledFrom([]int{60, 23, 150}).Draw(t, label+"periodA")}, 0
+	tl.Outages = []window{{c - 100 - rapid.IntRange(50, 600).Draw(t, label+"before"), c - 100 + rapid.IntRange(150, 750).Draw(t, label+"after")}}
+	tl.DurMS = c + 2300
 }
 
 type rec struct {
@@ -80,6 +107,7 @@ type outcome struct {
 
 var lineRe = regexp.MustCompile(`w(\d+):(\d+):([0-9a-f]{8})`)
 var nameRe = regexp.MustCompile(`^roll\.log\.(\d{14})$`)
+var companionRe = regexp.MustCompile(`^other\.log\.(\d{14})$`)
 
 func runTimeline(tl timeline, parent string) outcome {
 	dir := filepath.Join(parent, "logs")
@@ -116,8 +144,30 @@ func runTimeline(tl timeline, parent string) outcome {
 		rawWrite = func(line string) { a.Write([]byte(line + "\n")) }
 		stop = a.Stop
 	}
+	if tl.Aligned {
+		iv := time.Duration(tl.Companion) * time.Second
+		now := time.Now()
+		time.Sleep(now.Truncate(iv).Add(iv + 100*time.Millisecond).Sub(now))
+	}
 	startT := time.Now()
 	endT := startT.Add(time.Duration(tl.DurMS) * time.Millisecond)
+	var companionDone chan any
+	if tl.Companion > 0 {
+		comp := &log.RollingFileAppender{AppenderBase: log.AppenderBase{Name: "o"}, Layout: &log.TextLayout{BaseLayout: log.BaseLayout{FileLineLength: 48}},
+			FileDir: dir, FileName: "other.log", Rotation: log.TimeRotation{Interval: time.Duration(tl.Companion) * time.Second}, MaxAge: 100}
+		if err := comp.Start(); err != nil {
+			return outcome{err: fmt.Errorf("VERIF-INCONCLUSIVE: %v", err)}
+		}
+		companionDone = make(chan any, 1)
+		go func() {
+			defer func() { companionDone <- recover() }()
+			for n := 0; time.Now().Before(endT); n++ {
+				comp.Write([]byte("companion " + strconv.Itoa(n) + "\n"))
+				time.Sleep(100 * time.Millisecond)
+			}
+			comp.Stop()
+		}()
+	}
 	var mu sync.Mutex
 	var all []rec
 	var firstErr error
@@ -206,9 +256,15 @@ func runTimeline(tl timeline, parent string) outcome {
 		if err := os.Rename(dir, away); err != nil {
 			return outcome{err: fmt.Errorf("VERIF-INCONCLUSIVE: rename: %v", err)}
 		}
+		if tl.AsFile {
+			_ = os.WriteFile(dir, []byte("not a directory\n"), 0o644)
+		}
 		t1 := time.Now()
 		time.Sleep(time.Until(startT.Add(time.Duration(o.ToMS) * time.Millisecond)))
 		t2 := time.Now()
+		if tl.AsFile {
+			_ = os.Remove(dir)
+		}
 		if err := os.Rename(away, dir); err != nil {
 			return outcome{err: fmt.Errorf("VERIF-INCONCLUSIVE: rename back: %v", err)}
 		}
@@ -216,6 +272,16 @@ func runTimeline(tl timeline, parent string) outcome {
 	}
 	if done, _ := vk.Within(time.Until(endT)+15*time.Second, wg.Wait); !done {
 		return outcome{err: fmt.Errorf("VERIF-HANG a write/log call issued at an interval boundary had not returned 15 s after the end of the time-line")}
+	}
+	if companionDone != nil {
+		select {
+		case p := <-companionDone:
+			if p != nil {
+				return outcome{err: fmt.Errorf("a write to the second rolling appender in the same directory panicked: %v", p)}
+			}
+		case <-time.After(15 * time.Second):
+			return outcome{err: fmt.Errorf("VERIF-HANG a write to the second rolling appender in the same directory did not return")}
+		}
 	}
 	if p := vk.Catch(stop); p != nil {
 		return outcome{err: fmt.Errorf("Stop/Destroy panicked after the outage: %v", p)}
@@ -229,6 +295,9 @@ func runTimeline(tl timeline, parent string) outcome {
 	found := map[key]int{}
 	fileOf := map[key]time.Time{}
 	for _, e := range ents {
+		if tl.Companion > 0 && companionRe.MatchString(e.Name()) {
+			continue
+		}
 		m := nameRe.FindStringSubmatch(e.Name())
 		if m == nil {
 			return outcome{err: fmt.Errorf("unexpected file %q in the log directory", e.Name())}
@@ -338,6 +407,9 @@ func TestC19_Outage(t *testing.T) {
 		usedLogger := false
 		for i := 0; i < K; i++ {
 			tl := genTimeline(t, fmt.Sprintf("t%d", i))
+			if i == 1 && !tl.Aligned { // every batch has one time-line with a companion appender sharing a failed boundary
+				align(t, "t1", &tl)
+			}
 			if tl.ViaLogger {
 				if usedLogger {
 					tl.ViaLogger = false // the global configuration serves one time-line per batch
